@@ -3,30 +3,42 @@
 // @module file=kuznyechik/src/sse2/mod.rs
 // @config name=zeroize features=zeroize
 use super::*;
-use backends::__vp_sse2::{uf_expand_enc_keys, uf_inv_enc_keys, uf_transform};
+use backends::__vp_sse2::{uf_expand_enc_keys, uf_inv_enc_keys};
 
 macro_rules! with_key_stubs { ($i:item) => {
     #[kani::stub(backends::expand_enc_keys, uf_expand_enc_keys)]
     #[kani::stub(backends::inv_enc_keys, uf_inv_enc_keys)]
     $i
 }; }
+const ENC_PAR: usize = 4;
+const DEC_PAR: usize = 4;
 macro_rules! with_block_stubs { ($i:item) => {
-    #[kani::stub(backends::transform, uf_transform)]
+    #[kani::stub(<backends::EncBackend<'_> as cipher::BlockCipherEncBackend>::encrypt_block, uf_enc_block)]
+    #[kani::stub(<backends::EncBackend<'_> as cipher::BlockCipherEncBackend>::encrypt_par_blocks, lane_enc_par)]
+    #[kani::stub(<backends::DecBackend<'_> as cipher::BlockCipherDecBackend>::decrypt_block, uf_dec_block)]
+    #[kani::stub(<backends::DecBackend<'_> as cipher::BlockCipherDecBackend>::decrypt_par_blocks, lane_dec_par)]
     $i
 }; }
-macro_rules! with_spec_stubs { ($i:item) => {
+macro_rules! with_backend_contracts { ($i:item) => {
     #[kani::stub(backends::expand_enc_keys, backends::__vp_sse2::spec_expand_enc_keys)]
-    #[kani::stub(backends::inv_enc_keys, backends::__vp_sse2::spec_inv_enc_keys)]
-    #[kani::stub(backends::transform, backends::__vp_sse2::spec_transform)]
+    #[kani::stub(backends::inv_enc_keys, pair_inv_enc_keys)]
+    #[kani::stub(<backends::EncBackend<'_> as cipher::BlockCipherEncBackend>::encrypt_block, spec_enc_block)]
+    #[kani::stub(<backends::DecBackend<'_> as cipher::BlockCipherDecBackend>::decrypt_block, spec_dec_block)]
     $i
 }; }
 include!("@VERIF@/contracts/kuznyechik/api_common.inc");
+include!("@VERIF@/contracts/kuznyechik/api_tables.inc");
 
-// NOT REGISTERED (timeout in the final run under machine load ~25; harness kept for the next round): ob name=a_api_enc props=C07,C20 fn=kuznyechik::Kuznyechik::new,kuznyechik::Kuznyechik::encrypt_with_backend,kuznyechik::KuznyechikEnc::new,kuznyechik::KuznyechikEnc::encrypt_with_backend uses=c_expand_enc_keys,c_enc_block timeout=600
-// NOT REGISTERED (the HINT bookkeeping of the additive uninterpreted pair does not match the call order of this backend, so the harness assertion is not derivable (spurious failure of the abstraction, not of the crate); to be redone with the transcript oracle): ob name=a_api_dec props=C07,C20 fn=kuznyechik::Kuznyechik::new,kuznyechik::Kuznyechik::decrypt_with_backend uses=c_expand_enc_keys,c_inv_enc_keys,c_dec_block,l_dec_dk_is_standard,l_linv_additive timeout=600
-// NOT REGISTERED (the HINT bookkeeping of the additive uninterpreted pair does not match the call order of this backend, so the harness assertion is not derivable (spurious failure of the abstraction, not of the crate); to be redone with the transcript oracle): ob name=a_api_dec_only props=C07,C20 fn=kuznyechik::KuznyechikDec::new,kuznyechik::KuznyechikDec::decrypt_with_backend uses=c_expand_enc_keys,c_inv_enc_keys,c_dec_block,l_dec_dk_is_standard,l_linv_additive timeout=600
-// C01 for this backend: c_enc_block (= E under the ten keys), c_dec_block + c_inv_enc_keys + l_dec_dk_is_standard (= D under the
-// same keys, on the key material produced by the crate's own conversion) and lemmas.l_ref_roundtrip(_rev) (D_K E_K = E_K D_K = id).
+// C07 public API and C01 round trip: harness bodies and the composition argument in api_tables.inc
+// @ob name=a_api_enc props=C07,C20 fn=kuznyechik::Kuznyechik::new,kuznyechik::Kuznyechik::encrypt_with_backend,kuznyechik::KuznyechikEnc::new,kuznyechik::KuznyechikEnc::encrypt_with_backend,kuznyechik::sse2::EncKeys::new uses=c_expand_enc_keys,c_enc_block,l_ref_roundtrip,l_ref_roundtrip_rev timeout=300
+// @ob name=a_api_dec props=C07,C20 fn=kuznyechik::Kuznyechik::new,kuznyechik::Kuznyechik::decrypt_with_backend,kuznyechik::sse2::EncDecKeys::from uses=c_expand_enc_keys,c_inv_enc_keys,c_dec_block,l_dec_dk_is_standard,l_ref_roundtrip,l_ref_roundtrip_rev timeout=300
+// @ob name=a_api_only_dec props=C07,C20 fn=kuznyechik::KuznyechikDec::new,kuznyechik::KuznyechikDec::decrypt_with_backend,kuznyechik::sse2::DecKeys::from uses=c_expand_enc_keys,c_inv_enc_keys,c_dec_block,l_dec_dk_is_standard,l_ref_roundtrip,l_ref_roundtrip_rev timeout=300
+// @ob name=a_api_converted props=C12,C07,C20 fn=kuznyechik::Kuznyechik::from,kuznyechik::KuznyechikDec::from,kuznyechik::Kuznyechik::clone,kuznyechik::KuznyechikEnc::clone,kuznyechik::KuznyechikDec::clone,kuznyechik::Kuznyechik::encrypt_with_backend,kuznyechik::Kuznyechik::decrypt_with_backend,kuznyechik::KuznyechikDec::decrypt_with_backend uses=c_expand_enc_keys,c_inv_enc_keys,c_dec_block,l_dec_dk_is_standard,l_ref_roundtrip,l_ref_roundtrip_rev,c_enc_block timeout=300
+// @ob name=r_comb_ed props=C01 kind=lemma fn=kuznyechik::Kuznyechik::from,kuznyechik::Kuznyechik::encrypt_with_backend,kuznyechik::Kuznyechik::decrypt_with_backend uses=c_inv_enc_keys,c_enc_block,c_dec_block,l_dec_dk_is_standard,l_ref_roundtrip,l_ref_roundtrip_rev timeout=300
+// @ob name=r_comb_de props=C01 kind=lemma fn=kuznyechik::Kuznyechik::from,kuznyechik::Kuznyechik::encrypt_with_backend,kuznyechik::Kuznyechik::decrypt_with_backend uses=c_inv_enc_keys,c_enc_block,c_dec_block,l_dec_dk_is_standard,l_ref_roundtrip,l_ref_roundtrip_rev timeout=300
+// @ob name=r_halves_ed props=C01,C12 kind=lemma fn=kuznyechik::KuznyechikDec::from,kuznyechik::KuznyechikEnc::encrypt_with_backend,kuznyechik::KuznyechikDec::decrypt_with_backend uses=c_inv_enc_keys,c_enc_block,c_dec_block,l_dec_dk_is_standard,l_ref_roundtrip,l_ref_roundtrip_rev timeout=300
+// @ob name=r_halves_de props=C01,C12 kind=lemma fn=kuznyechik::KuznyechikDec::from,kuznyechik::KuznyechikEnc::encrypt_with_backend,kuznyechik::KuznyechikDec::decrypt_with_backend uses=c_inv_enc_keys,c_enc_block,c_dec_block,l_dec_dk_is_standard,l_ref_roundtrip,l_ref_roundtrip_rev timeout=300
+// @ob name=r_key_both props=C01 kind=lemma fn=kuznyechik::Kuznyechik::new,kuznyechik::Kuznyechik::encrypt_with_backend,kuznyechik::Kuznyechik::decrypt_with_backend uses=c_expand_enc_keys,c_inv_enc_keys,c_enc_block,c_dec_block,l_dec_dk_is_standard,l_ref_roundtrip,l_ref_roundtrip_rev timeout=300
 // @ob name=k_len props=C11 kind=bounded bound="slice length <= 300" fn=kuznyechik::Kuznyechik::new_from_slice uses=c_expand_enc_keys,c_inv_enc_keys timeout=300
 // @ob name=k_len_enc props=C11 kind=bounded bound="slice length <= 300" fn=kuznyechik::KuznyechikEnc::new_from_slice uses=c_expand_enc_keys timeout=300
 // @ob name=k_len_dec props=C11 kind=bounded bound="slice length <= 300" fn=kuznyechik::KuznyechikDec::new_from_slice uses=c_expand_enc_keys,c_inv_enc_keys timeout=300
@@ -45,28 +57,32 @@ include!("@VERIF@/contracts/kuznyechik/api_common.inc");
 // @ob name=z_kuznyechik_dec_from_ref cfg=zeroize props=C16 fn=kuznyechik::KuznyechikDec::drop,kuznyechik::KuznyechikDec::from uses=c_inv_enc_keys timeout=300
 // @ob name=z_kuznyechik_dec_from_val cfg=zeroize props=C16 fn=kuznyechik::KuznyechikDec::drop,kuznyechik::KuznyechikDec::from uses=c_inv_enc_keys timeout=300
 
-// parallel width 4 for both directions: n = 0, 1 (fewer), 4 (equal), 5 (not a multiple), 3 (fewer, tail only)
-// @ob name=m_enc_0 props=C04,C15 kind=bounded bound="n = 0 blocks" fn=kuznyechik::Kuznyechik::encrypt_with_backend,kuznyechik::sse2::backends::EncBackend::encrypt_par_blocks uses=c_transform timeout=300
+// parallel width 4 for both directions: n = 0, 1, 3 (fewer: tail only), 4 (equal), 5 (one chunk + tail), 9 (two chunks + tail)
+// @ob name=m_enc_0 props=C04,C15 kind=bounded bound="n = 0 blocks" fn=kuznyechik::Kuznyechik::encrypt_with_backend,kuznyechik::sse2::backends::EncBackend::encrypt_par_blocks uses=c_enc_block,p_enc_par timeout=600
 multi_enc!(m_enc_0, Kuznyechik, SZ, 0);
-// @ob name=m_enc_1 tier=thorough props=C04,C15 kind=bounded bound="n = 1 block" fn=kuznyechik::Kuznyechik::encrypt_with_backend,kuznyechik::sse2::backends::EncBackend::encrypt_par_blocks uses=c_transform timeout=1800
+// @ob name=m_enc_1 props=C04,C15 kind=bounded bound="n = 1 blocks" fn=kuznyechik::Kuznyechik::encrypt_with_backend,kuznyechik::sse2::backends::EncBackend::encrypt_par_blocks uses=c_enc_block,p_enc_par timeout=600
 multi_enc!(m_enc_1, Kuznyechik, SZ, 1);
-// NOT REGISTERED (timeout in the final run under machine load ~25; harness kept for the next round): ob name=m_enc_3 props=C04,C15 kind=bounded bound="n = 3 blocks" fn=kuznyechik::Kuznyechik::encrypt_with_backend,kuznyechik::sse2::backends::EncBackend::encrypt_par_blocks uses=c_transform timeout=600
+// @ob name=m_enc_3 props=C04,C15 kind=bounded bound="n = 3 blocks" fn=kuznyechik::Kuznyechik::encrypt_with_backend,kuznyechik::sse2::backends::EncBackend::encrypt_par_blocks uses=c_enc_block,p_enc_par timeout=600
 multi_enc!(m_enc_3, Kuznyechik, SZ, 3);
-// NOT REGISTERED (timeout in the final run under machine load ~25; harness kept for the next round): ob name=m_enc_4 props=C04,C15 kind=bounded bound="n = 4 blocks" fn=kuznyechik::Kuznyechik::encrypt_with_backend,kuznyechik::sse2::backends::EncBackend::encrypt_par_blocks uses=c_transform timeout=600
+// @ob name=m_enc_4 props=C04,C15 kind=bounded bound="n = 4 blocks" fn=kuznyechik::Kuznyechik::encrypt_with_backend,kuznyechik::sse2::backends::EncBackend::encrypt_par_blocks uses=c_enc_block,p_enc_par timeout=600
 multi_enc!(m_enc_4, Kuznyechik, SZ, 4);
-// NOT REGISTERED (timeout in the final run under machine load ~25; harness kept for the next round): ob name=m_enc_5 props=C04,C15 kind=bounded bound="n = 5 blocks" fn=kuznyechik::Kuznyechik::encrypt_with_backend,kuznyechik::sse2::backends::EncBackend::encrypt_par_blocks uses=c_transform timeout=900
+// @ob name=m_enc_5 props=C04,C15 kind=bounded bound="n = 5 blocks" fn=kuznyechik::Kuznyechik::encrypt_with_backend,kuznyechik::sse2::backends::EncBackend::encrypt_par_blocks uses=c_enc_block,p_enc_par timeout=600
 multi_enc!(m_enc_5, Kuznyechik, SZ, 5);
-// NOT REGISTERED (out of memory (32 GB) in the final run; harness kept for the next round): ob name=m_enconly_5 props=C04,C15 kind=bounded bound="n = 5 blocks" fn=kuznyechik::KuznyechikEnc::encrypt_with_backend,kuznyechik::sse2::backends::EncBackend::encrypt_par_blocks uses=c_transform timeout=900
-multi_enc!(m_enconly_5, KuznyechikEnc, SZE, 5);
-// @ob name=m_dec_0 props=C04,C15 kind=bounded bound="n = 0 blocks" fn=kuznyechik::Kuznyechik::decrypt_with_backend,kuznyechik::sse2::backends::DecBackend::decrypt_par_blocks uses=c_transform timeout=600
+// @ob name=m_enc_9 props=C04,C15 kind=bounded bound="n = 9 blocks" fn=kuznyechik::Kuznyechik::encrypt_with_backend,kuznyechik::sse2::backends::EncBackend::encrypt_par_blocks uses=c_enc_block,p_enc_par timeout=600
+multi_enc!(m_enc_9, Kuznyechik, SZ, 9);
+// @ob name=m_enconly_9 props=C04,C15 kind=bounded bound="n = 9 blocks" fn=kuznyechik::KuznyechikEnc::encrypt_with_backend,kuznyechik::sse2::backends::EncBackend::encrypt_par_blocks uses=c_enc_block,p_enc_par timeout=600
+multi_enc!(m_enconly_9, KuznyechikEnc, SZE, 9);
+// @ob name=m_dec_0 props=C04,C15 kind=bounded bound="n = 0 blocks" fn=kuznyechik::Kuznyechik::decrypt_with_backend,kuznyechik::sse2::backends::DecBackend::decrypt_par_blocks uses=c_dec_block,p_dec_par timeout=600
 multi_dec!(m_dec_0, Kuznyechik, SZ, 0);
-// @ob name=m_dec_1 tier=thorough props=C04,C15 kind=bounded bound="n = 1 block" fn=kuznyechik::Kuznyechik::decrypt_with_backend,kuznyechik::sse2::backends::DecBackend::decrypt_par_blocks uses=c_transform timeout=1800
+// @ob name=m_dec_1 props=C04,C15 kind=bounded bound="n = 1 blocks" fn=kuznyechik::Kuznyechik::decrypt_with_backend,kuznyechik::sse2::backends::DecBackend::decrypt_par_blocks uses=c_dec_block,p_dec_par timeout=600
 multi_dec!(m_dec_1, Kuznyechik, SZ, 1);
-// NOT REGISTERED (timeout in the final run under machine load ~25; harness kept for the next round): ob name=m_dec_3 props=C04,C15 kind=bounded bound="n = 3 blocks" fn=kuznyechik::Kuznyechik::decrypt_with_backend,kuznyechik::sse2::backends::DecBackend::decrypt_par_blocks uses=c_transform timeout=600
+// @ob name=m_dec_3 props=C04,C15 kind=bounded bound="n = 3 blocks" fn=kuznyechik::Kuznyechik::decrypt_with_backend,kuznyechik::sse2::backends::DecBackend::decrypt_par_blocks uses=c_dec_block,p_dec_par timeout=600
 multi_dec!(m_dec_3, Kuznyechik, SZ, 3);
-// NOT REGISTERED (timeout in the final run under machine load ~25; harness kept for the next round): ob name=m_dec_4 props=C04,C15 kind=bounded bound="n = 4 blocks" fn=kuznyechik::Kuznyechik::decrypt_with_backend,kuznyechik::sse2::backends::DecBackend::decrypt_par_blocks uses=c_transform timeout=600
+// @ob name=m_dec_4 props=C04,C15 kind=bounded bound="n = 4 blocks" fn=kuznyechik::Kuznyechik::decrypt_with_backend,kuznyechik::sse2::backends::DecBackend::decrypt_par_blocks uses=c_dec_block,p_dec_par timeout=600
 multi_dec!(m_dec_4, Kuznyechik, SZ, 4);
-// NOT REGISTERED (timeout in the final run under machine load ~25; harness kept for the next round): ob name=m_dec_5 props=C04,C15 kind=bounded bound="n = 5 blocks" fn=kuznyechik::Kuznyechik::decrypt_with_backend,kuznyechik::sse2::backends::DecBackend::decrypt_par_blocks uses=c_transform timeout=900
+// @ob name=m_dec_5 props=C04,C15 kind=bounded bound="n = 5 blocks" fn=kuznyechik::Kuznyechik::decrypt_with_backend,kuznyechik::sse2::backends::DecBackend::decrypt_par_blocks uses=c_dec_block,p_dec_par timeout=600
 multi_dec!(m_dec_5, Kuznyechik, SZ, 5);
-// NOT REGISTERED (timeout in the final run under machine load ~25; harness kept for the next round): ob name=m_deconly_5 props=C04,C15 kind=bounded bound="n = 5 blocks" fn=kuznyechik::KuznyechikDec::decrypt_with_backend,kuznyechik::sse2::backends::DecBackend::decrypt_par_blocks uses=c_transform timeout=900
-multi_dec!(m_deconly_5, KuznyechikDec, SZD, 5);
+// @ob name=m_dec_9 props=C04,C15 kind=bounded bound="n = 9 blocks" fn=kuznyechik::Kuznyechik::decrypt_with_backend,kuznyechik::sse2::backends::DecBackend::decrypt_par_blocks uses=c_dec_block,p_dec_par timeout=600
+multi_dec!(m_dec_9, Kuznyechik, SZ, 9);
+// @ob name=m_deconly_9 props=C04,C15 kind=bounded bound="n = 9 blocks" fn=kuznyechik::KuznyechikDec::decrypt_with_backend,kuznyechik::sse2::backends::DecBackend::decrypt_par_blocks uses=c_dec_block,p_dec_par timeout=600
+multi_dec!(m_deconly_9, KuznyechikDec, SZD, 9);
